@@ -78,3 +78,19 @@ def parse_csv(text):
     header = lines[0].split(",")
     rows = [l.split(",") for l in lines[1:]]
     return header, rows
+
+
+def run_cli_fresh(args, timeout=300):
+    """The same command line in a FRESH interpreter (what a user's shell does): module-level state of an earlier run cannot
+    leak in.  Returns (returncode, stdout, stderr)."""
+    import subprocess
+    import sys
+    from vmon import common
+    code = "import sys, verif.driver; verif.driver.run(['verif'] + sys.argv[1:])"
+    env = dict(os.environ, MPLBACKEND="Agg", PYTHONWARNINGS="ignore", PYTHONPATH=common.REPO + os.pathsep + os.environ.get("PYTHONPATH", ""))
+    try:
+        r = subprocess.run([sys.executable, "-c", code] + [str(a) for a in args], stdout=subprocess.PIPE, stderr=subprocess.PIPE,
+                           text=True, timeout=timeout, env=env)
+    except subprocess.TimeoutExpired:
+        return None, "", "timeout"
+    return r.returncode, r.stdout, r.stderr
